@@ -56,7 +56,13 @@ TRUSTED = [
     "matched at quiescence with a schedule-chosen sender, eager vs synchronous completion per send, collectives "
     "complete when all members entered the same call, deadlock = quiescent and nothing enabled; its self-check "
     "(13 items) runs every time",
-    "translation of the communication log into model choices (harness/props/c06.py:translate)",
+    "translation of the communication log into model choices (harness/props/c06.py:translate; failing jobs: etranslate - "
+    "the root's answer to a received result, the `WorkerError` in the payload summary of that result and whether an earlier "
+    "result was one decide more / last / first error / drained; message sequence numbers link a receive to its send)",
+    "refusal runs of group C: harness/props/c06_driver.py:IterTracer replaces the module attribute `parallel.iter_unordered` in "
+    "the driver process (never in the tree under test) by a generator that delegates to the original, puts begin/end marks per "
+    "rank into the simulator log, materialises the root's iterable to count its items and wraps the job function to record "
+    "returned/raised per call; the exception types and messages per rank are what the caller of iter_unordered sees",
     "refusal runs: extraction of the per-communicator collective call sequences from the simulator log "
     "(harness/props/c06_driver.py:collective_traces); point-to-point traffic is not part of that model, so the Coq "
     "side checks a necessary condition (all ranks returned -> aligned), the verdict itself is the observed return of every rank",
@@ -73,7 +79,9 @@ ASSUMPTIONS = [
 RULE = ("dispatch cases = (world size, max_workers, rank0_node_only/hosts, send mode, wildcard policy+seed or explicit "
         "choice sequence, task list); pipeline cases = (world size, max_workers, send mode, policy, seed, data spec); "
         "distinct by that tuple; non-trivial when some wildcard receive had >= 2 candidate senders "
-        "(the schedule actually decided something); refusal cases = (refusal class, its parameters, follow-up "
+        "(the schedule actually decided something); failing-job cases = dispatch tuple + the task values the job raises for, "
+        "non-trivial when that set is not empty; iter_unordered episodes of group C refusal runs = (refusal case, call number), "
+        "non-trivial when the job raised in it; refusal cases = (refusal class, its parameters, follow-up "
         "operation, world size, max_workers, send mode, policy, seed, data spec); non-trivial when the single-process "
         "run raises and at least two ranks took part")
 
